@@ -391,3 +391,214 @@ def class_src(c, first="self"):
     if not body:
         body = ["pass"]
     return [hdr] + ["    " + l if l else "" for l in body]
+
+
+# ------------------------------------------------------------------------------------------
+# union-find stress classes (C14; also handed to the reproducibility check C05)
+#
+# lcom.go joins methods with a union-find (union by rank, path compression) whose unions are
+# performed in Go map iteration order (attributes, then self-calls): a slip in union()/find()
+# shows only when a tree of rank >= 2 meets a NON-root member of another tree, and then only
+# for some iteration orders.  That needs many methods, sparse sharing (every attribute used by
+# two or three methods, no method touching everything, so that no early union flattens the
+# forest) and deep/bushy shapes.  The classes here are such method graphs; the expected
+# partition is computed from the graph itself (and by the Coq spec in c14.py).
+# ------------------------------------------------------------------------------------------
+UF_FAMILIES = ["tree", "deep-tree", "forest", "tree+extra", "chains-mid", "pairs-joined", "stars-linked", "caterpillar", "binomial"]
+_UF_PLAIN_ATTR = ["PBody", "PAssignValue", "PReturnValue", "PAssignTarget", "PAugAssignTarget", "PCallArg", "PIfTest", "PBinLeft"]
+_UF_PLAIN_CALL = ["PBody", "PAssignValue", "PReturnValue", "PCallArg", "PIfTest", "PIfBody"]
+_UF_ATTR_POS = [p[0] for p in POSITIONS if p[1] == "m" and p[0] != "PCalledResult"]
+_UF_CALL_POS = [p[0] for p in POSITIONS if p[1] == "m" and p[2] == "e"]
+
+
+def _uf_shape(rng, family):
+    """(number of vertices, list of edges (u, v) or (u, v, "attr" | "call")) of one family member; 6..14 vertices"""
+    E = []
+
+    def tree(vs, deep=False):
+        for i in range(1, len(vs)):
+            j = rng.randint(max(0, i - 2), i - 1) if deep else rng.randrange(i)
+            E.append((vs[j], vs[i]))
+
+    if family in ("tree", "deep-tree", "tree+extra"):
+        n = rng.randint(6, 14)
+        tree(list(range(n)), deep=family == "deep-tree")
+        if family == "tree+extra":
+            for _ in range(rng.randint(1, 3)):
+                u, v = rng.sample(range(n), 2)
+                E.append((u, v))
+    elif family == "forest":
+        n = rng.randint(7, 14)
+        k = rng.randint(2, 3)
+        cuts = sorted(rng.sample(range(1, n), k - 1))
+        vs = list(range(n))
+        for a, b in zip([0] + cuts, cuts + [n]):
+            tree(vs[a:b], deep=rng.random() < 0.4)
+    elif family == "chains-mid":
+        a, b = rng.randint(3, 7), rng.randint(3, 7)
+        n = a + b
+        for i in range(a - 1):
+            E.append((i, i + 1))
+        for i in range(a, n - 1):
+            E.append((i, i + 1))
+        E.append((rng.randint(1, a - 2) if a > 2 else 0, a + (rng.randint(1, b - 2) if b > 2 else 0)))
+    elif family == "pairs-joined":
+        # two pairs, each with its own attribute, joined through a third one (a rank-2 tree if that one comes last);
+        # further pairs / a triple; members of the big tree linked to members of the small ones
+        E += [(0, 1), (2, 3), (rng.choice([0, 1]), rng.choice([2, 3]))]
+        n = 4
+        smalls = []
+        for _ in range(rng.randint(1, 3)):
+            k = rng.choice([2, 2, 3])
+            vs = list(range(n, n + k))
+            n += k
+            tree(vs)
+            smalls.append(vs)
+        joined = rng.sample(smalls, rng.randint(1, len(smalls)))
+        for vs in joined:
+            E.append((rng.randrange(0, 4), rng.choice(vs)))
+        if n < 14 and rng.random() < 0.6:              # one more method that reaches a small tree and the big one
+            E += [(n, rng.choice(rng.choice(smalls))), (n, rng.randrange(0, 4))]
+            n += 1
+        while n < 6:
+            E.append((rng.randrange(n), n))
+            n += 1
+    elif family == "stars-linked":
+        # several stars; the hubs never meet directly, two stars are linked leaf to leaf (or not at all)
+        n = 0
+        stars = []
+        for _ in range(rng.randint(2, 3)):
+            k = rng.randint(2, 4)
+            hub, leaves = n, list(range(n + 1, n + 1 + k))
+            n += 1 + k
+            E += [(hub, l) for l in leaves]
+            stars.append(leaves)
+        for s, t in zip(stars, stars[1:]):
+            if rng.random() < 0.8:
+                E.append((rng.choice(s), rng.choice(t)))
+    elif family == "binomial":
+        # pairs, pairs of pairs, pairs of quadruples: when the unions happen level by level the tree gets rank 3 and a member
+        # three links away from its root (only then does a find() that stops short of the root show)
+        n = 8
+        blocks = [[i] for i in range(n)]
+        while len(blocks) > 1:
+            nxt = []
+            for a, b in zip(blocks[::2], blocks[1::2]):
+                # the last level mostly as a self-call (calls are united after all attributes), the lower ones as attributes
+                how = ("call" if rng.random() < 0.75 else "attr") if len(blocks) == 2 else ("attr" if rng.random() < 0.9 else "call")
+                E.append((rng.choice(a), rng.choice(b), how))
+                nxt.append(a + b)
+            blocks = nxt
+        for _ in range(rng.choice([0, 0, 1, 2, 4])):
+            E.append((rng.randrange(n), n))
+            n += 1
+    else:                                               # caterpillar: a spine with legs, legs of neighbouring joints sometimes linked
+        s = rng.randint(3, 6)
+        n = s
+        for i in range(s - 1):
+            E.append((i, i + 1))
+        for i in range(s):
+            for _ in range(rng.randint(0, 2)):
+                if n < 14:
+                    E.append((i, n))
+                    n += 1
+        while n < 6:
+            E.append((rng.randrange(s), n))
+            n += 1
+    return n, E
+
+
+def _components(n, edges):
+    adj = {i: set() for i in range(n)}
+    for u, v in edges:
+        adj[u].add(v)
+        adj[v].add(u)
+    seen, out = set(), []
+    for s in range(n):
+        if s in seen:
+            continue
+        comp, todo = [], [s]
+        seen.add(s)
+        while todo:
+            x = todo.pop()
+            comp.append(x)
+            for y in adj[x]:
+                if y not in seen:
+                    seen.add(y)
+                    todo.append(y)
+        out.append(sorted(comp))
+    return out
+
+
+def unionfind_stress_terms(rng, n, name="K"):
+    """n classes (class-level terms of Syntax.v) with the partition their method graph has:
+    [dict(cls=..., family=..., groups=[[method names]], lcom4=int)]"""
+    out = []
+    for i in range(n):
+        family = UF_FAMILIES[i % len(UF_FAMILIES)] if i < 2 * len(UF_FAMILIES) else rng.choice(UF_FAMILIES)
+        nv, E = _uf_shape(rng, family)
+        E = [e for e in E if e[0] != e[1]]
+        names = ["m%02d" % k for k in range(nv)]
+        rng.shuffle(names)                                 # union order follows the sorted names: decouple it from the shape
+        # links: an attribute shared by the two ends, by three methods (two edges at one vertex merged), or a self-call
+        links, used = [], set()
+        order = list(range(len(E)))
+        rng.shuffle(order)
+        p_call = rng.choice([0.0, 0.2, 0.35, 0.5])
+        for a in order:
+            if a in used:
+                continue
+            used.add(a)
+            u, v = E[a][:2]
+            how = E[a][2] if len(E[a]) > 2 else ("call" if rng.random() < p_call else None)
+            if how == "call":
+                links.append(("call", u, v) if rng.random() < 0.5 else ("call", v, u))
+                continue
+            trio = [b for b in order if b not in used and len(E[b]) == 2 and (set(E[b]) & {u, v})]
+            if trio and how is None and rng.random() < 0.25:
+                b = rng.choice(trio)
+                used.add(b)
+                links.append(("attr", sorted({u, v} | set(E[b]))))
+            else:
+                links.append(("attr", [u, v]))
+        attrs = ["f%d" % k for k in range(len(links))]
+        rng.shuffle(attrs)
+        bodies = {k: [] for k in range(nv)}
+        plain = rng.random() < 0.6
+        for lk, an in zip(links, attrs):
+            if lk[0] == "attr":
+                for x in lk[1]:
+                    pos = rng.choice(_UF_PLAIN_ATTR if plain or rng.random() < 0.5 else _UF_ATTR_POS)
+                    bodies[x].append((("attr", "self", an), pos))
+            else:
+                pos = rng.choice(_UF_PLAIN_CALL if plain or rng.random() < 0.5 else _UF_CALL_POS)
+                bodies[lk[1]].append((("call", "self", names[lk[2]]), pos))
+        members = []
+        for k in range(nv):
+            rng.shuffle(bodies[k])
+            members.append(("method", dict(name=names[k], decos=[], params=[], ret=None, body=bodies[k])))
+        rng.shuffle(members)
+        if rng.random() < 0.3:                              # excluded methods are no vertices, whatever they mention
+            deco = rng.choice(["staticmethod", "classmethod"])
+            obj = "cls" if deco == "classmethod" else "other"
+            members.insert(rng.randint(0, len(members)),
+                           ("method", dict(name="make", decos=[deco], params=[], ret=None,
+                                           body=[(("attr", obj, a), "PBody") for a in rng.sample(attrs, min(2, len(attrs)))])))
+        # the partition, from the links themselves
+        plain_edges = []
+        for lk in links:
+            if lk[0] == "attr":
+                plain_edges += [(lk[1][0], x) for x in lk[1][1:]]
+            else:
+                plain_edges.append((lk[1], lk[2]))
+        groups = sorted(sorted(names[x] for x in comp) for comp in _components(nv, plain_edges))
+        out.append(dict(cls=dict(name=name, bases=[], members=members), family=family, groups=groups, lcom4=len(groups)))
+    return out
+
+
+def unionfind_stress_classes(rng, n, prefix="UF"):
+    """Python source texts of n union-find stress classes named <prefix>0 .. <prefix>(n-1) (each text is one class
+    definition; join them with blank lines for a module).  Analysing the same class repeatedly (fresh runs, or the
+    same text under several names in one file) must give the same LCOM4 / method groups / risk level every time."""
+    return ["\n".join(class_src(dict(t["cls"], name="%s%d" % (prefix, i)))) + "\n"
+            for i, t in enumerate(unionfind_stress_terms(rng, n))]
